@@ -15,6 +15,9 @@ pub mod c10;
 pub mod c11;
 pub mod c20;
 pub mod c13;
+pub mod c15;
+pub mod c16;
+pub mod c19;
 
 thread_local! {
     static CUR: RefCell<Option<Ty>> = RefCell::new(None);
@@ -66,6 +69,9 @@ pub fn run(a: &Args) {
         "c11" => c11::run(a),
         "c20" => c20::run(a),
         "c13" => c13::run(a),
+        "c15" => c15::run(a),
+        "c16" => c16::run(a),
+        "c19" => c19::run(a),
         other => panic!("unknown property {}", other),
     }
 }
